@@ -16,7 +16,7 @@ BOUNDS = {'quick': 'layout: 2 modules (1 fixed) and 3 modules (1 fixed, 1 termin
                    'start inside or outside the die, every product/quotient/sqrt of symbolic terms uninterpreted (over-approximation of '
                    'the path set); force_algorithm: 12 spring constants with arbitrary costs; binary64 kernel: write-back of a fixed '
                    'module on a concrete die',
-          'thorough': '3 modules with a 3-pin net and coincident centres'}
+          'thorough': 'additionally 3 modules (a fixed terminal pin on a 3-pin net) on 4 start zones'}
 STUBS = ['max/min inside the module: if-then-else terms instead of forks (same value)', 'nonlinear arithmetic: uninterpreted functions mul/div/sqrt (deterministic, sqrt >= 0)',
          'force_algorithm: fruchterman_reingold_layout, total_intersection_area and Netlist.wire_length replaced by arbitrary-valued '
          'deterministic stubs recording their calls', 'PIL/matplotlib plotting not reached (visualize=None)']
@@ -52,9 +52,8 @@ def cases(tier):
         for shape in ('wide', 'narrow'):
             cs.append(dict(kind='layout', mods=2, max_iter=1, zone=None, far=far, shape=shape, twice=False))
     if tier == 'thorough':
-        for zx in (0, 1, 2):
-            for zy in (0, 1, 2):
-                cs.append(dict(kind='layout', mods=3, max_iter=1, zone=[zx, zy], twice=False))
+        for zx, zy in ((0, 0), (1, 1), (2, 1), (1, 2)):
+            cs.append(dict(kind='layout', mods=3, max_iter=1, zone=[zx, zy], twice=False))
     cs.append(dict(kind='force'))
     cs.append(dict(kind='fp-fixed'))
     return cs
@@ -82,10 +81,14 @@ def build(I, case, tag=''):
             'S0': {'area': I.real('a0', 0.01, 50), 'center': [I.real('c0x', -50, 150), I.real('c0y', -50, 150)]}}
     nets = [['FX', 'S0', I.real('w0', 0.01, 10)]]
     if case['mods'] == 3:
-        mods['S1'] = {'area': I.real('a1', 0.01, 50), 'center': [I.real('c1x', -50, 150), I.real('c1y', -50, 150)]}
-        nets = [['FX', 'S0', 'S1', I.real('w0', 0.01, 10)]]
+        # third module: a fixed terminal pin on a 3-pin net
+        mods['T1'] = {'terminal': True, 'fixed': True, 'center': [I.real('c1x', 0, 100), 6.5]}
+        nets = [['FX', 'S0', 'T1', I.real('w0', 0.01, 10)]]
     net = Netlist({'Modules': mods, 'Nets': nets})
     die = Die({'width': W, 'height': H}, net)
+    build.centres = {m.name: (m.center.x, m.center.y) for m in net.modules if m.is_fixed}
+    if case.get('mods') == 3:
+        I.assume(net.get_module('T1').center.x <= W)
     if case.get('far'):
         c = net.get_module('S0').center
         I.assume(W >= 24 if case['shape'] == 'wide' else W <= 3)
@@ -152,9 +155,11 @@ def body_layout(I, case):
     I.prove('returns-the-same-die', out is die and imgs == [])
     after = snapshot(net)
     I.prove('nothing-but-centres-changed', same_snapshot(before, after))
+    orig_centres = getattr(build, 'centres', {})
     for m in net.modules:
         if m.is_fixed:
-            I.prove('fixed-module-has-not-moved', And(Eq(m.center.x, fx), Eq(m.center.y, fy)))
+            ox, oy = orig_centres.get(m.name, (fx, fy))
+            I.prove('fixed-module-has-not-moved', And(Eq(m.center.x, ox), Eq(m.center.y, oy)))
         elif case['max_iter'] > 0:
             I.prove('centre-inside-die', And(m.center.x >= 0, m.center.x <= W, m.center.y >= 0, m.center.y <= H))
         else:
